@@ -85,7 +85,8 @@ _c = fragcheck.FragCheck(
     PROP, evaluate,
     profiles=[(3, dict(_P), "mixed"), (2, dict(_P, direct_only=True), "direct"),
               (1, dict(_P, max_subs=4, max_depth=4), "deep"),
-              (2, dict(_P, max_subs=4, max_stmts=3, weights={"call": 8, "ret": 3, "doloop": 2}), "call-heavy")],
+              (2, dict(_P, max_subs=4, max_stmts=3, weights={"call": 8, "ret": 3, "doloop": 2}), "call-heavy"),
+              (2, dict(_P, gtxn=0.9, max_subs=1, max_stmts=3, max_depth=2, direct_only=True, keys=["Addr", "Fee", "Type", "OC"]), "small-cross-reads")],
     sizes={"quick": (32, 12), "thorough": (160, 50)},
     rule="fragment programs reading up to three other members through `gtxn i`, `int i; gtxns` and `txn GroupIndex; int k; +/-; "
          "gtxns` (both operand orders of +, index beyond the group) x groups with independent valuations per member; non-trivial "
